@@ -66,7 +66,7 @@ def replay(case):
     issuer = ISSUER[scn['issuer']]
     emb = None if scn['embedded'] == 'none' else scn['embedded']
     a = spc.default_assertion(issuer=issuer)
-    r = spc.default_response(issuer=issuer)
+    r = spc.default_response(issuer=issuer if scn.get('outer', 'same') == 'same' else ISSUER[scn['outer']])
     if scn['level'] == 'assertion':
         a['sig'] = sb.signature_template('a1', 'sha256', embed_cert=emb)
     else:
@@ -115,7 +115,7 @@ def main():
     if nacc == 0 and not chk.violations:
         raise fw.Machinery('nothing accepted: templates broken')
     chk.cov['exhaustive'] = True
-    chk.cov['rule'] = ('all 2 520 scenarios of SPKeys.tla: 7 key-descriptor layouts of the issuer x claimed issuer x real signing key '
+    chk.cov['rule'] = ('all scenarios of SPKeys.tla: Issuer of the enclosing Response (assertion level) x 7 key-descriptor layouts of the issuer x claimed issuer x real signing key '
                       '(4 RSA keys) x embedded certificate x only_use_keys_in_metadata x signature level (response, assertion, or a signed request received by an IdP); every one is decided '
                       'by the contract except flag-off/embedded-key cases which may go either way')
     chk.assumptions = list(fw.TOOL_ASSUMPTIONS)
